@@ -72,10 +72,36 @@ def lossyStep {α : Type} (E : Option (Option α → Option α → Bool)) (flt :
   let n := c.new.map flt
   ({ c with old := o, new := n }, match E with | some e => !e o n | none => true)
 
+/-- `CollectionChange.include` on a (merged) change: `none` when old and new value are both outside the
+include filter; a change crossing the boundary becomes an ADD without old value / a REMOVE without new value.
+An absent value is never included. -/
+def includeChg {α : Type} (inc : Option (α → Bool)) (c : Chg α) : Option (Chg α) :=
+  match inc with
+  | none => some c
+  | some f =>
+    let oldInc := match c.old with | some v => f v | none => false
+    let newInc := match c.new with | some v => f v | none => false
+    if oldInc == newInc then (if newInc then some c else none)
+    else if newInc then some { c with ct := .add, old := none }
+    else some { c with ct := .remove, new := none }
+
+/-- The whole body of the loop on one (merged) change: include, read-mask filter, equivalence. -/
+def lossyStepI {α : Type} (E : Option (Option α → Option α → Bool)) (flt : α → α) (inc : Option (α → Bool))
+    (c : Chg α) : Option (Chg α × Bool) :=
+  (includeChg inc c).map (lossyStep E flt)
+
 /-- A parked window end to end: merge, then the loop; the changes the subscriber receives, in order. -/
-def lossyWindow {α : Type} (E : Option (Option α → Option α → Bool)) (flt : α → α) (evs : List (Chg α)) :
-    List (Chg α) :=
-  ((mergerWindow evs).map (lossyStep E flt)).filterMap (fun p => if p.2 then some p.1 else none)
+def lossyWindow {α : Type} (E : Option (Option α → Option α → Bool)) (flt : α → α) (inc : Option (α → Bool))
+    (evs : List (Chg α)) : List (Chg α) :=
+  ((mergerWindow evs).filterMap (lossyStepI E flt inc)).filterMap (fun p => if p.2 then some p.1 else none)
+
+/-- The subscriber's copy of an item after a window: the new value of the delivered change, or what it held
+before when nothing was delivered. -/
+def viewAfter {α : Type} (E : Option α → Option α → Bool) (flt : α → α) (held : Option α) (evs : List (Chg α)) :
+    Option α :=
+  match (mergeFold none evs).map (lossyStep (some E) flt) with
+  | some (c, true) => c.new
+  | _ => held
 
 /-- The events `Collection` publishes for one id `i`, taking the stored item from `s` to `e`:
 `Add` (ADD, no old value), `Update` (UPDATE old → new), `Delete` (REMOVE, no new value). -/
